@@ -21,7 +21,9 @@ def run(ctx):
         "branch stashes FailedPause, sets the run permit and moves to 'aborting' (typestate: the pause block and the suspension "
         "continuation are reached with a resumable plan only); D2 request_suspend stores FailedPause and moves to 'aborting' when "
         "no checkpoint is in effect; D3 None is assigned to the message cache only by clear_checkpoint and 'resumable' is exactly "
-        "'cache is not None'; D4 FailedPause is recorded as exit_status 'abort' (ladder of C02). Cleanup / closing of runs: C01.D1, C06.D1.")
+        "'cache is not None'; D4 FailedPause is recorded as exit_status 'abort' (ladder of C02); D5 only a checkpoint re-arms resumability; D6 the "
+        "tear-down is not started with a cancellation still pending (fails on today's tree for pauses requested from inside the task: F-15). "
+        "Cleanup / closing of runs: C01.D1, C06.D1.")
     # the typestate fixpoint (and C10 as a whole) assumes that a call starts with a checkpointable plan
     q.per_call_reset(ctx, rm, "C10.D3-call-starts-resumable", ["_msg_cache"])
     # D1 shape of the branch
@@ -76,6 +78,18 @@ def run(ctx):
             pre = eng.pre_states(s)
             ok = bool(pre) and all(x.resumable for x in pre)
             ctx.ob("C10.D1-pause-block-needs-checkpoint", cname(run_f, s), ok, f"pre-tuples {T.fmt(pre)}", nontrivial=True, where=where(run_f, s))
+        # D6: 'its cleanup code runs': when the failed pause is turned into FailedPause / 'aborting', no cancellation of the task may
+        # still be pending - it would be delivered at the first await of the plan's cleanup, be mapped to RequestAbort by the
+        # CancelledError handler and be thrown into the cleanup, truncating it
+        if branch is not None:
+            for x in branch.body:
+                if rm.is_state_write(x, "aborting"):
+                    pre = eng.pre_states(x)
+                    pend = {t for t in pre if t.cancel}
+                    ctx.ob("C10.D6-teardown-not-hit-by-stale-cancel", f"{cname(run_f, x)} [cancellation still pending]", not pend,
+                           "" if not pend else "reached with a cancellation of the _run task still pending (the pause was requested from inside the task: "
+                           f"the 'pause' command issued by the plan itself): tuples {T.fmt(pend)}. The stale CancelledError lands in the plan's cleanup and "
+                           "RequestAbort is thrown into it after its first message", nontrivial=True, where=where(run_f, x))
         # D5: between clear_checkpoint and the next checkpoint nothing else may re-arm resumability
         INTERNAL = {"_start_suspender": "internal: only pushed by a suspension that found a checkpoint", "_resume_from_suspender": "internal",
                     "checkpoint": "the statement's 'next checkpoint'"}
